@@ -101,7 +101,73 @@ func subset(r *rand.Rand, all []string, must ...string) []string {
 	return out
 }
 
-var allKinds = []string{"v1u", "v1o", "v2a", "v2", "loc", "loco"}
+// hsCheck registers a property decided on the handshake profile.
+func hsCheck(prop, rule string, nontriv []string, worldsQ, worldsT int, tune func(o *HSOptions, r *rand.Rand), extra func(ck *sim.Check)) {
+	ck := &sim.Check{
+		Prop: prop, Rule: rule, NonTrivPrefixes: nontriv,
+		Worlds: map[string]int{"quick": worldsQ, "thorough": worldsT},
+		NewProfile: func(cfg sim.WorldConfig) sim.Profile {
+			var o HSOptions
+			if err := json.Unmarshal(cfg.Extra, &o); err != nil {
+				sim.Failf("handshake options: %v", err)
+			}
+			return NewHS(o)
+		},
+		MakeConfig: func(tier string, seed int64) sim.WorldConfig {
+			r := rand.New(rand.NewSource(seed ^ 0x4853))
+			o := DefaultHSOptions()
+			if tune != nil {
+				tune(&o, r)
+			}
+			bz, _ := json.Marshal(o)
+			return sim.WorldConfig{Profile: "handshake", Steps: steps(tier, 110, 260), Extra: bz}
+		},
+		Assumptions: []string{
+			"seeded sampling of handshake interleavings (two chains, two client pairs, <= 7..12 concurrent handshakes, proofs at heights the run produced); exhaustive enumeration of the two-party protocol would be model checking and is out of scope of this technique",
+			"Cosmos SDK, CometBFT light verification, IAVL and ics23 are trusted as used by the real code",
+		},
+	}
+	if extra != nil {
+		extra(ck)
+	}
+	register(ck)
+}
+
+// clCheck registers a property decided on the clients profile.
+func clCheck(prop, rule string, nontriv []string, worldsQ, worldsT int, tune func(o *CLOptions, r *rand.Rand), extra func(ck *sim.Check)) {
+	ck := &sim.Check{
+		Prop: prop, Rule: rule, NonTrivPrefixes: nontriv,
+		Worlds: map[string]int{"quick": worldsQ, "thorough": worldsT},
+		NewProfile: func(cfg sim.WorldConfig) sim.Profile {
+			var o CLOptions
+			if err := json.Unmarshal(cfg.Extra, &o); err != nil {
+				sim.Failf("clients options: %v", err)
+			}
+			return NewClients(o)
+		},
+		MakeConfig: func(tier string, seed int64) sim.WorldConfig {
+			r := rand.New(rand.NewSource(seed ^ 0x434c))
+			o := DefaultCLOptions()
+			o.NumVals = []int{4, 6, 7, 9, 10}[r.Intn(5)]
+			if tune != nil {
+				tune(&o, r)
+			}
+			bz, _ := json.Marshal(o)
+			return sim.WorldConfig{Profile: "clients", Steps: steps(tier, 120, 300), Extra: bz}
+		},
+		Assumptions: []string{
+			"the simulator holds the tracked chain's validator keys: any subset of equal-power validators (4-10) can sign any header; validator-set CHANGES are not simulated (constant set), so trusted-set vs own-set differences arise only through mutated headers",
+			"hashing, sign-bytes and ed25519 verification of CometBFT are used as trusted primitives by the independent acceptance predicate; light.Verify itself is not called by the oracle",
+			"seeded search: a clean batch is evidence within the stated bounds, not proof",
+		},
+	}
+	if extra != nil {
+		extra(ck)
+	}
+	register(ck)
+}
+
+var allKinds = []string{"v1u", "v1o", "v2a", "v2", "loc", "loco", "v1x"}
 
 // denomGrammar: native denominations of the token worlds. SDK denom alphabet, 1-4 '/'-separated
 // segments, segments shaped like ports, channel ids, client ids, "ibc", hashes.
@@ -234,6 +300,8 @@ func init() {
 			o.WBlock = 22
 			o.WClose = 3
 			o.GuardBoundary = 25
+			o.WReReg = 3
+			o.WSkew = 6
 		},
 		func(ck *sim.Check) {
 			ck.RequiredProbes = []string{"send_ok_v1u", "send_ok_v2a", "send_refused", "v2_send_guard_boundary_value"}
@@ -244,7 +312,7 @@ func init() {
 		[]string{"recv-effects:"}, 96, 1600,
 		func(o *CoreOptions, r *rand.Rand, tier string) {
 			o.Kinds = subset(r, allKinds)
-			o.Behaviours = []string{"ok", "fail", "async", "panic", "w1ok", "w2ok", "w3ok", "w1fail", "w2fail", "w3fail", "w2async", "w2panic"}
+			o.Behaviours = []string{"ok", "fail", "async", "panic", "w1ok", "w2ok", "w3ok", "w1fail", "w2fail", "w3fail", "w2async", "w2panic", "sfail", "w2sfail"}
 			o.WDup, o.WEarlyTmo, o.TightTmo = 4, 2, 10
 		},
 		func(ck *sim.Check) {
@@ -400,6 +468,84 @@ func init() {
 		func(ck *sim.Check) {
 			tokAssume(ck)
 			ck.RequiredProbes = []string{"attack_refused"}
+		})
+
+	hsCheck("C12",
+		"two real chains; several relayers submit channel handshake and closing messages (INIT, TRY, ACK, CONFIRM, CLOSE-INIT, CLOSE-CONFIRM) for up to 7 concurrent handshakes in any order, repeated, with proofs at the newest or stale heights, and an attacker mutates identifiers (incl. 20-digit and leading-zero sequences), orderings, versions, connection hops and ports. Oracles: (a) after every block each decoded channel end moved only INIT->OPEN, TRYOPEN->OPEN or *->CLOSED, CLOSED never changes, ordering/hops/counterparty port never change; (b) every accepted TRY/ACK/CONFIRM/CLOSE-CONFIRM is justified by the counterparty's REAL channel end at the proven state version (state, ordering, mirrored identifiers, hops, version); (c) two OPEN ends agree on ordering, version and each other's ids; (d) v2 alias bookkeeping of UNORDERED channels appears exactly at OPEN. Non-trivial case = distinct accepted handshake steps and distinct refusal reasons",
+		[]string{"chan-", "hs-refused:h"}, 96, 1400, nil,
+		func(ck *sim.Check) {
+			ck.RequiredProbes = []string{"hs_htry_accepted", "hs_hack_accepted", "hs_hconf_accepted", "hs_htry_refused", "hs_hack_refused", "both_ends_open_agreement_checked"}
+			ck.RequiredFaults = []string{"relay.mutate", "relay.reorder", "relay.stale_proof"}
+		})
+	hsCheck("C13",
+		"as C12 for connection handshakes, with proposed version lists drawn from a grammar (known/unknown identifiers, feature subsets, duplicate features, empty feature sets, unknown features, several versions, empty list), delay periods, handshakes over the localhost client, and channel opens on connections whose negotiated feature set lacks the requested ordering. Oracles: (a) connection ends move only INIT->OPEN / TRYOPEN->OPEN and never leave OPEN; client pair and delay never change; (b) every accepted TRY/ACK/CONFIRM is justified by the counterparty's REAL connection end at the proven version (state, client pair, delay, versions); (c) the version stored at TRY is the specification's pick computed independently (single version, supported identifier, feature intersection); (d) nothing over the localhost client is accepted; (e) an accepted channel open runs on a connection with exactly one version supporting its ordering. Non-trivial case = distinct (version-list shape) accepted steps and distinct refusal reasons",
+		[]string{"conn-", "hs-refused:c"}, 96, 1400,
+		func(o *HSOptions, r *rand.Rand) { o.WLocal = 4 },
+		func(ck *sim.Check) {
+			ck.RequiredProbes = []string{"hs_ctry_accepted", "hs_cack_accepted", "hs_cconf_accepted", "hs_ctry_refused", "hs_cinit_refused"}
+			ck.RequiredFaults = []string{"relay.mutate", "relay.reorder"}
+		})
+	hsCheck("C15",
+		"long histories of client, connection and channel creation on two chains — including failed creation attempts (invalid client parameters, refused handshake steps), duplicate TRYs that create additional ends, and chain restarts from the durable DB — collecting every identifier the chains hand out. Oracle: no identifier is handed out twice on a chain, each passes the host validators, Parse(Format(id)) returns the same type and sequence; messages addressed to identifiers with 20-digit, leading-zero, upper-case or extended sequences are never accepted as an existing object (they end refused: probes). Non-trivial case = distinct (kind, sequence) identifiers generated",
+		[]string{"id:"}, 96, 1400,
+		func(o *HSOptions, r *rand.Rand) { o.WInit, o.WLocal, o.WRestart, o.MaxObjs = 24, 8, 3, 12 },
+		func(ck *sim.Check) {
+			ck.RequiredProbes = []string{"failed_create_client_attempt"}
+			ck.RequiredFaults = []string{"chain.restart"}
+			ck.Assumptions = append(ck.Assumptions, "the all-strings clause of the property (every client-type string, every 64-bit sequence) is an input property; only identifiers a run can produce, plus the listed edge-shaped mutations, are covered")
+		})
+
+	clCheck("C20",
+		"chain A hosts three tendermint clients (trusting periods 6 h, 40 h, 14 d) of chain B whose 4-10 validator keys the simulator owns; headers are submitted in any order (below latest, duplicates, gap filling, explicit older trusted heights), conflicting headers for stored heights are signed by full and partial power, misbehaviour pairs are submitted, the clock jumps across trusting periods so that old states expire and get pruned. Oracle on the client-store census after every block: per (client, height) the stored bytes go absent* value* absent*, a removal only when the state had expired at that block; an accepted different header for a stored height leaves the value and freezes the client. Non-trivial case = distinct (message kind, accepted/refused, model verdict)",
+		[]string{"hdr:"}, 96, 1400, nil,
+		func(ck *sim.Check) {
+			ck.RequiredProbes = []string{"conflicting_header_for_stored_height_submitted", "consensus_state_pruned", "duplicate_header_resubmitted"}
+		})
+	clCheck("C21",
+		"same worlds; after every block the status query of every client must equal the property's definition evaluated on the raw stored state (frozen flag; latest consensus state missing or older than the trusting period at that block's time; else Active) — with clock jumps aimed at expiry -2 s .. +2 s — and the latest height never decreases; at seeded points every consumer of the client (update, v1 send, v2 send, connection init, channel init on its connection, packet receive proven at a stored height) is attempted: none may succeed unless the model status is Active. Non-trivial case = distinct (consumer, status, outcome) and status transitions",
+		[]string{"gate:", "status:"}, 96, 1400,
+		func(o *CLOptions, r *rand.Rand) { o.WGate, o.WJump, o.WFork = 22, 12, 8 },
+		func(ck *sim.Check) {
+			ck.RequiredProbes = []string{"consumer_attempt_Active", "consumer_attempt_Expired", "consumer_attempt_Frozen"}
+		})
+	clCheck("C22",
+		"same worlds; after every block the census of every client namespace must show exactly one processed-time, processed-height and ordered-iteration entry per consensus state and none without one; ascending iteration through the real iterator equals the sorted stored heights; next/previous lookups at every stored height and at height+1 return the true neighbours; a block removes at most one state, the oldest, only if expired. Non-trivial case = distinct (message kind, outcome) histories incl. prunes",
+		[]string{"hdr:"}, 96, 1400,
+		func(o *CLOptions, r *rand.Rand) { o.WUpd, o.WJump = 44, 10 },
+		func(ck *sim.Check) {
+			ck.RequiredProbes = []string{"client_metadata_census_checked", "consensus_state_pruned"}
+		})
+	clCheck("C23",
+		"same worlds with validators signing headers for heights between stored neighbours with times shifted by +-1 s, +10 min, -1 h (full power so that they verify); invariant after every block: stored timestamps strictly increase with height; an accepted header that would break this freezes the client and is not stored. Non-trivial case = distinct (message kind, outcome, model verdict)",
+		[]string{"hdr:"}, 96, 1400,
+		func(o *CLOptions, r *rand.Rand) { o.WFork, o.WUpd = 30, 26 },
+		func(ck *sim.Check) {
+			ck.RequiredProbes = []string{"update_froze_client_on_time_violation"}
+		})
+	clCheck("C24",
+		"same worlds; every submitted header / misbehaviour is first judged by an independent acceptance predicate (trusted validators hash to the stored next-validators hash; same revision; strictly above the trusted height; trusted state within the trusting period; time after trusted time and within clock drift; validator set hashes to the header's hash; commit is for this header; valid signatures of > 2/3 of its own set and >= trust level of the trusted set, counted by verifying each ed25519 signature) over: honest headers, forks signed by 0, n/3, n/3+1, 2n/3, 2n/3+1, n of n validators, altered times, future heights, and honest headers with one field mutated by reflection over the whole header (signed fields, commit signatures, validator sets, trusted height/validators, revision). Accepted => predicate true; accepted misbehaviour => both headers pass the misbehaviour checks, the pair is misbehaviour, and the client is frozen. Non-trivial case = distinct mutated field paths and distinct (kind, outcome, verdict)",
+		[]string{"hdr:", "hdr-mut:"}, 96, 1400,
+		func(o *CLOptions, r *rand.Rand) { o.WMut, o.WFork, o.WMisb = 26, 22, 10 },
+		func(ck *sim.Check) {
+			ck.Level = "fault_enumeration"
+			ck.RequiredFaults = []string{"relay.mutate", "val.equivocate"}
+			ck.RequiredProbes = []string{"client_message_cfk_refused", "client_message_cmu_refused", "client_message_cup_accepted", "client_frozen_by_misbehaviour"}
+		})
+	clCheck("C25",
+		"same worlds; MsgRecoverClient for every ordered pair of the three clients (statuses Active / Expired / Frozen reached through clock jumps and misbehaviour; equal and different parameters; higher and lower heights) is run through the REAL gov module (proposal, vote, voting period). Model: succeeds only if the subject is not Active, the substitute is Active, strictly higher, same parameters; afterwards the subject is unfrozen and holds the substitute's latest height and consensus state; no other client namespace changes over the whole governance sequence. Non-trivial case = distinct (subject status, substitute status, passed, model verdict)",
+		[]string{"recover:"}, 96, 1200,
+		func(o *CLOptions, r *rand.Rand) { o.WRecover, o.WJump, o.WMisb = 14, 12, 10 },
+		func(ck *sim.Check) {
+			ck.RequiredProbes = []string{"recovery_passed_true", "recovery_passed_false", "recovery_post_state_checked"}
+			ck.Assumptions = append(ck.Assumptions, "the upgrade half of the property (MsgUpgradeClient with proofs under the committed upgrade path) is not exercised by this check: scheduling a real chain upgrade and continuing in a new revision is not built; only recovery is decided")
+		})
+	clCheck("C16",
+		"client operations (create, update by honest / forged / mutated headers, misbehaviour, recovery through gov) on three clients of one chain, next to a connection, a channel and v2 counterparty state; for every single-transaction block the store diff of an accepted client message must lie inside clients/<target>/, a refused one must change nothing there, and a recovery must change no namespace but the subject's. Non-trivial case = distinct (message kind, outcome, model verdict)",
+		[]string{"hdr:", "recover:"}, 96, 1200,
+		func(o *CLOptions, r *rand.Rand) { o.WRecover = 8 },
+		func(ck *sim.Check) {
+			ck.RequiredProbes = []string{"client_operation_confinement_checked"}
+			ck.Assumptions = append(ck.Assumptions, "the key-space collision-freedom half of the property over the whole identifier alphabet is an input property and is not claimed; this check decides the 'client operations stay in their namespace' half on the keys real histories produce")
 		})
 
 	coreCheck("C14",
